@@ -48,6 +48,8 @@ ASSUMPTIONS = ["x strictly increasing, new grid non-decreasing and non-empty (do
                "<= 0.009 of the tolerance)",
                "interpolate(n): steps equal the exact (x_last - x_first)/(n-1) within 16 ulp of max|x| (numpy.linspace "
                "itself deviates by up to 3.64 ulp in a 2e5-case search, so DESIGN's 4 ulp was widened)",
+               "kwargs_history: calls with explicit keywords are only checked for a finite result of the right "
+               "length; the library's state cannot be reset between cases, every default call is judged on its own",
                "a violation observed for a case is reported again when Hypothesis re-executes that case in the same "
                "process (faults that keep state between calls make the verdict depend on what ran before)",
                "history steps are applied only when their documented preconditions hold for the current series "
@@ -1013,10 +1015,27 @@ def process_history_case(draw, ctx):
                                  st.tuples(st.just("move"), fl(0.0, 1.0), fl(0.3, 0.7))))
             step = dict(op="edit_x", pair=pair, how=list(how))
         else:
-            step = dict(op="edit_grid", t=draw(fl(0.05, 0.45)))
+            step = dict(op="edit_grid", t=draw(st.sampled_from([-1.0, 1.0])) * draw(fl(0.05, 0.45)))
         steps.append(step)
     steps.append(dict(op="call", pair=0, grid=draw(st.sampled_from(["x-object", "reuse", "spec"])), method=m0,
                       spec=[[0.5, 0.5], [0.25, 0.0]]))
+    # the pattern that exposes anything memoised on the identity of the arguments: the same x, y and grid objects
+    # passed twice with the same method and exactly one in-place edit (of x, of the grid or of y) in between
+    for _ in range(draw(st.integers(1, 2))):
+        spec = [list(v) for v in draw(st.lists(st.tuples(fl(0.0, 1.0), st.sampled_from([0.0, 0.0, 0.25, 0.5, 0.9])),
+                                               min_size=3, max_size=12))]
+        steps.append(dict(op="call", pair=0, grid="spec", method=m0, spec=spec))
+        edit = draw(st.sampled_from(["x-affine", "x-move", "grid", "grid", "y"]))
+        if edit == "x-affine":
+            steps.append(dict(op="edit_x", pair=0, how=["affine", draw(st.sampled_from([2.0, 0.5, 1.0])),
+                                                        draw(st.sampled_from([0.125, -1.0, 3.0]))]))
+        elif edit == "x-move":
+            steps.append(dict(op="edit_x", pair=0, how=["move", draw(fl(0.0, 1.0)), draw(st.sampled_from([0.3, 0.7]))]))
+        elif edit == "grid":
+            steps.append(dict(op="edit_grid", t=draw(st.sampled_from([-0.45, -0.3, 0.3, 0.45]))))
+        else:
+            steps.append(dict(op="edit_y", pair=0, how=["elem", draw(fl(0.0, 1.0)), 4.5]))
+        steps.append(dict(op="call", pair=0, grid="reuse", method=m0))
     case["steps"] = steps
     return case
 
@@ -1030,6 +1049,7 @@ def process_history_body(ctx, case):
     ncalls = 0
     cls = common_classes(case)
     edits_since_call = [set(), set()]
+    edits_since_grid = set()        # in-place edits since the current grid object was last passed
     for step in case["steps"]:
         op = step["op"]
         if op == "edit_grid":
@@ -1037,6 +1057,7 @@ def process_history_body(ctx, case):
                 x, _ = pairs[0]
                 last_grid += step["t"] * float(np.min(np.diff(x)))        # in place, order preserved
                 cls.add("edit:grid-in-place")
+                edits_since_grid.add("grid")
             continue
         x, y = pairs[step["pair"]]
         m = len(x)
@@ -1064,6 +1085,8 @@ def process_history_body(ctx, case):
                 x[i] = x[i - 1] + how[2] * (x[i + 1] - x[i - 1])
             affine[step["pair"]] = None
             edits_since_call[step["pair"]].add("x:" + how[0])
+            if step["pair"] == 0:
+                edits_since_grid.add("x")
             continue
         # ---- a call: judged against the CURRENT contents of the very objects that are passed
         cx, cy = [float(v) for v in x], [float(v) for v in y]
@@ -1098,14 +1121,85 @@ def process_history_body(ctx, case):
             cls.add("affine-overwrite judged")
         cls.add("method:" + method)
         cls.add("grid:" + (g if not (g == "reuse" and last_grid is None) else "x-copy"))
+        if g == "reuse" and last_grid is not None and ncalls and edits_since_grid:
+            cls.add("same x and grid objects again after in-place edit of " + "/".join(sorted(edits_since_grid)))
         if step["pair"] == 1:
             cls.add("second pair of equal shape")
         edits_since_call[step["pair"]] = set()
         if grid_obj is not x:
+            edits_since_grid = set()
             last_grid = grid_obj
         ncalls += 1
     cls.add(f"calls:{min(ncalls, 4)}{'+' if ncalls >= 4 else ''}")
     ctx.record(case, cls, nontrivial="same objects passed again after an in-place edit" in cls)
+
+
+# ---- explicit keyword arguments must not outlive the call they were given to ----------------------------------------
+
+KWARGS = dict(
+    spline=[dict(s=0.5), dict(s=50.0), dict(s=200.0), dict(k=1), dict(k=2), dict(s=50.0, k=2)],
+    cubic=[dict(bc_type="natural"), dict(bc_type="clamped")],
+    linear=[dict(left=-7.5), dict(right=3.25), dict(left=0.0, right=1e6)],
+    constant=[dict(left=-7.5), dict(left=1e6)],          # _piecewise_constant_interpolate takes `left` only
+)
+
+
+@st.composite
+def kwargs_history_case(draw, ctx):
+    """call(s) with explicit, valid keyword arguments, each followed by default calls of the same method (on the same
+    or another series, through the function or through a Weaver) that are judged by the ordinary oracles"""
+    first = draw(grid_case(ctx, profiles=["same", "superset", "mixed", "inside", "beyond"], nonconstant=True))
+    second = draw(grid_case(ctx, affine=draw(st.sampled_from([True, True, False])),
+                            profiles=["same", "superset", "mixed", "inside"], nonconstant=True))
+    method = draw(st.sampled_from(["spline", "spline", "cubic", "cubic", "linear", "constant"]))
+    calls = []
+    for _ in range(draw(st.integers(1, 2))):
+        calls.append(dict(kwargs=draw(st.sampled_from(KWARGS[method])), level=draw(st.sampled_from(["process", "weaver"])),
+                          on=draw(st.sampled_from(["first", "second"]))))
+        for _ in range(draw(st.integers(1, 2))):
+            calls.append(dict(kwargs=None, level=draw(st.sampled_from(["process", "weaver"])),
+                              on=draw(st.sampled_from(["first", "second", "second"]))))
+    return dict(first=first, second=second, method=method, calls=calls, xkind=first["xkind"], ykind=second["ykind"])
+
+
+def kwargs_history_body(ctx, case):
+    method = case["method"]
+    cls = {"method:" + method, "x:" + case["first"]["xkind"], "y2:" + case["second"]["ykind"]}
+    seen_kwargs = False
+    for k, call in enumerate(case["calls"]):
+        series = case[call["on"]]
+        xi, yi = inputs(series)
+        kwargs = call["kwargs"]
+        if call["level"] == "weaver":
+            # Weaver.interpolate wants a grid with the end points of x: the samples themselves plus the points of
+            # the generated grid that lie inside the range
+            xs_ = [float(v) for v in series["x"]]
+            grid = sorted(set(xs_) | {q for q in series["grid"] if xs_[0] <= q <= xs_[-1]})
+            w = Weaver(xi, yi)
+            w.interpolate(new_x=np.array(grid), method=method, **(kwargs or {}))
+            res = get_pair(w, "kwargs history")[1]
+        else:
+            grid = series["grid"]
+            res = process.interpolate(xi, yi, grid_input(series), method=method, **(kwargs or {}))
+        where = f"call {k + 1} ({method!r}, {call['level']} level, {'kwargs ' + repr(kwargs) if kwargs else 'default'}" \
+                + (", after an earlier call with explicit keywords" if seen_kwargs and not kwargs else "") + "): "
+        res = check_array(res, len(grid), where + "result")
+        if kwargs:
+            # nothing is stated about explicit scipy / numpy keywords beyond a well-formed result
+            if not np.all(np.isfinite(np.asarray(res, dtype=float))):
+                raise Violation(where + "non-finite values")
+            seen_kwargs = True
+            cls.add("kwargs:" + "+".join(sorted(kwargs)))
+            cls.add("kwargs-call:" + call["level"])
+            continue
+        aff = (series["p"], series["c"]) if series["ykind"] == "affine" and method != "constant" else None
+        check_values(method, series["x"], series["y"], grid, res, affine=aff, where=where)
+        if seen_kwargs:
+            cls.add("default call after kwargs:" + call["level"])
+            cls.add("default call after kwargs on " + ("the same" if call["on"] == "first" else "another") + " series")
+            if aff is not None:
+                cls.add("default call after kwargs on affine data")
+    ctx.record(case, cls, nontrivial=True)
 
 
 _FIRST_VERDICT = {}
@@ -1152,6 +1246,10 @@ SUBCHECKS = [
         clause="process.interpolate called repeatedly with the SAME x / y / grid array objects, edited in place in "
                "between (one element, whole array, affine overwrite, x moved keeping it increasing) and alternating "
                "with a second pair of equal shape: every call obeys all oracles for the current contents"),
+    Sub("kwargs_history", "hyp", sticky(kwargs_history_body), strategy=kwargs_history_case, quick=150, thorough=2500,
+        clause="explicit scipy / numpy keywords given to one call (spline s / k, cubic bc_type, linear left / right, "
+               "constant left; through the function or Weaver.interpolate) do not outlive it: the following default "
+               "calls of that method obey all oracles"),
     Sub("weaver_history", "hyp", sticky(weaver_history_body), strategy=weaver_history_case, quick=200, thorough=4000,
         clause="after 1..4 preparatory steps on one Weaver, interpolate (n or new_x, every method) acts on the CURRENT "
                "working series: all oracles above applied to copies of get(); reference and original untouched"),
